@@ -31,7 +31,8 @@ def main():
     rc, out = sh('git -C /repo worktree add -q --detach %s HEAD' % wt)
     assert rc == 0, out
     meta = dict(name=name, property=pid, source='independent sub-agent given only the property text and a scratch worktree',
-                notes=open(os.path.join(seed, 'notes.txt')).read() if os.path.exists(os.path.join(seed, 'notes.txt')) else '',
+                notes=open(os.path.join(seed, 'notes.txt')).read() if os.path.exists(os.path.join(seed, 'notes.txt'))
+                else (json.load(open(os.path.join(seed, 'meta.json'))).get('notes', '') if os.path.exists(os.path.join(seed, 'meta.json')) else ''),
                 repo_commit=sh('git -C /repo rev-parse --short HEAD')[1].strip(), ran=[])
     try:
         rc, out = sh('git apply %s' % os.path.join(seed, 'patch.diff'), cwd=wt)
@@ -95,10 +96,11 @@ def finish(meta, seed, name, wt):
     if meta.get('confirmed') or os.environ.get('KEEP_UNCONFIRMED'):
         d = os.path.join(VERIF, 'seeded', name)
         os.makedirs(d, exist_ok=True)
-        shutil.copy(os.path.join(seed, 'patch.diff'), os.path.join(d, 'patch.diff'))
-        for fn in ('demo.rs', 'demo.sh'):
-            if os.path.exists(os.path.join(seed, fn)):
-                shutil.copy(os.path.join(seed, fn), os.path.join(d, fn))
+        if os.path.realpath(seed) != os.path.realpath(d):          # re-evaluation of a stored seed: files are already in place
+            shutil.copy(os.path.join(seed, 'patch.diff'), os.path.join(d, 'patch.diff'))
+            for fn in ('demo.rs', 'demo.sh'):
+                if os.path.exists(os.path.join(seed, fn)):
+                    shutil.copy(os.path.join(seed, fn), os.path.join(d, fn))
         json.dump(meta, open(os.path.join(d, 'meta.json'), 'w'), indent=1)
     print(json.dumps({k: meta.get(k) for k in ('name', 'applies', 'confirmed', 'detected', 'suite_with_change', 'demo_with_change', 'demo_without_change')}))
 
